@@ -127,6 +127,17 @@ def decode_graphql_request(request: httpx.Request) -> Dict[str, Any]:
             parts[fields["name"]] = p.content
         body = json.loads(parts["operations"])
         fmap = json.loads(parts["map"])
+        files = {}
+        for p in dec.parts:
+            disp = p.headers[b"Content-Disposition"].decode()
+            fields = {}
+            for seg in disp.split(";")[1:]:
+                k, _, v = seg.strip().partition("=")
+                fields[k] = v.strip('"')
+            if fields.get("name") not in ("operations", "map"):
+                files[fields.get("name")] = {"filename": fields.get("filename"), "content_type": (p.headers.get(b"Content-Type") or b"").decode(), "content": p.content}
+        body["__files__"] = files
+        body["__null_positions_ok__"] = True
         for idx, paths in fmap.items():
             for path in paths:
                 cur = body
@@ -134,7 +145,11 @@ def decode_graphql_request(request: httpx.Request) -> Dict[str, Any]:
                 for s in segs[:-1]:
                     cur = cur[int(s)] if isinstance(cur, list) else cur[s]
                 last = segs[-1]
-                marker = "upload:%s" % idx
+                if (cur[int(last)] if isinstance(cur, list) else cur[last]) is not None:
+                    body["__null_positions_ok__"] = False  # the spec wants null at every file position of `operations`
+                content = (files.get(idx) or {}).get("content", b"")
+                # harness-made uploads carry their own token as content: the server then "sees" that token at the file position
+                marker = content.decode("utf-8") if content.startswith(b"upload-tok#") else "upload:%s" % idx
                 if isinstance(cur, list):
                     cur[int(last)] = marker
                 else:
